@@ -146,6 +146,15 @@ Qed.
 Lemma no_topeer_in_life l r d x : Forall is_life l -> ~ In (ToPeer r d x) l.
 Proof. intros H Hin. rewrite Forall_forall in H. apply H in Hin. exact Hin. Qed.
 
+(* the three ways an allocation is ended from outside announce lifecycle events only *)
+Lemma close_all_life l : Forall is_life (flat_map close_events l).
+Proof. induction l as [|a l IH]; cbn [flat_map]; [constructor|]. apply Forall_app. split; [apply close_events_life|exact IH]. Qed.
+Lemma h_ctl_close_life s src s' acts : h_ctl_close s src = (s', acts) -> Forall is_life acts.
+Proof. unfold h_ctl_close. destruct (find_alloc src (allocs s)); intros H; inversion H; subst; [apply close_events_life|constructor]. Qed.
+Lemma h_srv_close_life s s' acts : h_srv_close s = (s', acts) -> Forall is_life acts.
+Proof. unfold h_srv_close. intros H; inversion H; subst. apply close_all_life. Qed.
+
+
 Lemma no_topeer_in_reply src m tid l r d x : Forall (reply_to src m tid) l -> ~ In (ToPeer r d x) l.
 Proof. intros H Hin. rewrite Forall_forall in H. apply H in Hin. exact Hin. Qed.
 
@@ -172,7 +181,7 @@ Theorem topeer_only_from_send_or_chandata cfg s e s' acts r d x :
   step cfg s e = (s', acts) -> In (ToPeer r d x) acts ->
   (exists src p dat, e = ESend src p dat) \/ (exists src n dat, e = EChanData src n dat).
 Proof.
-  intros H Hin. destruct e as [src tid c rq unk|src p dat|src n dat|relay from dat|dt|relay]; eauto; exfalso.
+  intros H Hin. destruct e as [src tid c rq unk|src p dat|src n dat|relay from dat|dt|relay|csrc|]; eauto; exfalso.
   - apply req_reply in H. eapply no_topeer_in_reply; eauto.
   - cbn [step] in H. apply h_peer_spec in H as [_ [->|(a & _ & _ & _ & [(c & _ & ->)|(_ & pm & _ & ->)])]];
       cbn in Hin; intuition discriminate.
@@ -180,6 +189,8 @@ Proof.
     apply tick_allocs_life in Ht. eapply no_topeer_in_life; eauto.
   - cbn [step] in H. unfold h_relay_err in H. destruct (find_relay relay (allocs s)); inversion H; subst;
       [eapply no_topeer_in_life; [apply close_events_life|eauto]|destruct Hin].
+  - cbn [step] in H. apply h_ctl_close_life in H. eapply no_topeer_in_life; eauto.
+  - cbn [step] in H. apply h_srv_close_life in H. eapply no_topeer_in_life; eauto.
 Qed.
 
 (* ---------- C02: who receives because of a datagram at a relayed address ---------- *)
@@ -188,7 +199,7 @@ Theorem to_client_data_only_from_peer cfg s e s' acts :
   (exists dst p d, In (DataInd dst p d) acts) \/ (exists dst n d, In (ChanDataOut dst n d) acts) ->
   exists relay from d, e = EPeer relay from d.
 Proof.
-  intros H Hin. destruct e as [src tid c rq unk|src p dat|src n dat|relay from dat|dt|relay]; eauto; exfalso.
+  intros H Hin. destruct e as [src tid c rq unk|src p dat|src n dat|relay from dat|dt|relay|csrc|]; eauto; exfalso.
   - apply req_reply in H. rewrite Forall_forall in H.
     destruct Hin as [(dst & p & d & Hin)|(dst & n & d & Hin)]; apply H in Hin; exact Hin.
   - cbn [step] in H. apply h_send_spec in H as [_ [->|(a & q & d & pm & -> & _)]];
@@ -203,6 +214,10 @@ Proof.
     + specialize (Hl a). rewrite Forall_forall in Hl.
       destruct Hin as [(? & ? & ? & Hin)|(? & ? & ? & Hin)]; apply Hl in Hin; exact Hin.
     + destruct Hin as [(? & ? & ? & [])|(? & ? & ? & [])].
+  - cbn [step] in H. apply h_ctl_close_life in H. rewrite Forall_forall in H.
+    destruct Hin as [(? & ? & ? & Hin)|(? & ? & ? & Hin)]; apply H in Hin; exact Hin.
+  - cbn [step] in H. apply h_srv_close_life in H. rewrite Forall_forall in H.
+    destruct Hin as [(? & ? & ? & Hin)|(? & ? & ? & Hin)]; apply H in Hin; exact Hin.
 Qed.
 
 (* ---------- C03: a request that does not authenticate changes nothing ---------- *)
